@@ -259,37 +259,14 @@ Proof.
       apply (denote_levels limit _ Hlim). cbn [forallb]. now rewrite Hb, Hm.
 Qed.
 
-(* no segment of a tag path is a port; 4-byte values only when an index / instance id needs them *)
-Definition no_port (s : seg) : bool := match s with Port _ _ => false | _ => true end.
-
+(* 4-byte values occur in a tag path only when an index / instance id needs them *)
 Lemma guard_split f32 l :
-  forallb no_port l = true -> (table_f32 = f32 \/ existsb is32 l = false) -> existsb (seg_guard f32) l = false.
+  (table_f32 = f32 \/ existsb is32 l = false) -> existsb (seg_guard f32) l = false.
 Proof.
-  induction l as [|s l IH]; cbn [forallb existsb]; [reflexivity|].
-  intros Hp Hg. apply andb_true_iff in Hp as [Hs Hl].
-  assert (Hps : port_ge15 s = false) by (destruct s; try reflexivity; discriminate).
-  unfold seg_guard at 1. rewrite Hps, orb_false_r.
+  induction l as [|s l IH]; cbn [existsb]; [reflexivity|]. intros Hg. unfold seg_guard at 1.
   destruct Hg as [Hg|Hg].
-  - replace (negb (table_f32 =? f32)) with false by lia. cbn [andb orb]. apply IH; [exact Hl|now left].
-  - apply orb_false_iff in Hg as [H1 H2]. rewrite H1, andb_false_r. cbn [orb]. apply IH; [exact Hl|now right].
-Qed.
-
-Lemma members_no_port idx : forallb no_port (member_segs idx) = true.
-Proof. induction idx as [|i idx IH]; cbn [member_segs map forallb no_port]; [reflexivity|exact IH]. Qed.
-
-Lemma levels_no_port ls : forallb no_port (flat_map level_segs ls) = true.
-Proof.
-  induction ls as [|l ls IH]; cbn [flat_map]; [reflexivity|].
-  unfold level_segs at 1. cbn [app forallb no_port]. now rewrite forallb_app, members_no_port, IH.
-Qed.
-
-Lemma tag_segs_no_port p inst use : forallb no_port (tag_segs p inst use) = true.
-Proof.
-  unfold tag_segs. destruct (tp_program p).
-  - cbn [forallb no_port]. apply levels_no_port.
-  - rewrite forallb_app, levels_no_port, andb_true_r. destruct (instance_used p inst use).
-    + cbn [app forallb no_port]. apply members_no_port.
-    + unfold level_segs. cbn [forallb no_port]. apply members_no_port.
+  - replace (negb (table_f32 =? f32)) with false by lia. cbn [andb orb]. apply IH. now left.
+  - apply orb_false_iff in Hg as [H1 H2]. rewrite H1, andb_false_r. cbn [orb]. apply IH. now right.
 Qed.
 
 Lemma members_not32 limit idx : limit <= 65536 -> forallb (wf_index limit) idx = true ->
@@ -312,7 +289,7 @@ Lemma tag_segs_guard f32 limit p inst use :
   wf_tagpath limit p = true -> wf_instance limit p inst use = true ->
   (table_f32 = f32 \/ limit <= 65536) -> existsb (seg_guard f32) (tag_segs p inst use) = false.
 Proof.
-  intros H Hinst Hg. apply guard_split; [apply tag_segs_no_port|].
+  intros H Hinst Hg. apply guard_split.
   destruct Hg as [Hg|Hg]; [now left|right].
   unfold wf_tagpath in H. apply andb_true_iff in H as [H Hm]. apply andb_true_iff in H as [Hp Hb].
   unfold tag_segs, wf_instance in *. destruct (tp_program p) as [n|] eqn:Ep.
@@ -392,68 +369,45 @@ Proof.
   intros H. apply andb_true_iff in H as [Hh Hhs]. now rewrite (denote_hop pmax h Hpm Hh), (IH Hhs).
 Qed.
 
-Lemma hops_guard f32 hops : forallb (wf_hop 14) hops = true -> existsb (seg_guard f32) (map hop_seg hops) = false.
+Lemma hops_guard f32 hops : existsb (seg_guard f32) (map hop_seg hops) = false.
 Proof.
-  induction hops as [|h hs IH]; cbn [forallb map existsb]; [reflexivity|].
-  intros H. apply andb_true_iff in H as [Hh Hhs]. rewrite (IH Hhs), orb_false_r.
-  unfold wf_hop in Hh. apply andb_true_iff in Hh as [Hp _]. unfold seg_guard, hop_seg. cbn [is32 port_ge15].
-  rewrite andb_false_r. cbn [orb]. destruct (hop_port h); [lia|reflexivity].
+  induction hops as [|h hs IH]; cbn [map existsb]; [reflexivity|]. rewrite IH, orb_false_r.
+  unfold seg_guard, hop_seg. cbn [is32]. apply andb_false_r.
 Qed.
 
-(* every numeric port above 255 is refused: nothing is emitted *)
-Lemma lor16_ge256 n : 256 <= n -> 256 <= Z.lor n 16.
+(* ---------------------------------------------------------------- port numbers outside 1..65535 *)
+Lemma UINT_big z : 65536 <= z -> UINT_encode z = Err DataError.
 Proof.
-  intros H. destruct (Z.lt_ge_cases (Z.lor n 16) 256) as [Hlt|]; [exfalso|assumption].
-  assert (Hpos : 0 < Z.lor n 16).
-  { assert (0 <= Z.lor n 16) by (apply Z.lor_nonneg; lia).
-    assert (Z.lor n 16 <> 0) by (intros E; apply Z.lor_eq_0_iff in E; lia). lia. }
-  change 256 with (2 ^ 8) in Hlt. apply (Z.log2_lt_pow2 _ _ Hpos) in Hlt.
-  rewrite Z.log2_lor in Hlt by lia.
-  assert (Hn : Z.log2 n < 8) by lia. apply Z.log2_lt_pow2 in Hn; [|lia]. change (2 ^ 8) with 256 in Hn. lia.
+  intros H. unfold UINT_encode, uint_encode, in_urange. change (pow256 2) with 65536.
+  now replace ((0 <=? z) && (z <? 65536)) with false by lia.
 Qed.
 
-Lemma port_gt255_rejected n link : 256 <= n -> encode_seg true (Port (inl n) link) = Err DataError.
+(* a port number that does not fit 16 bits is refused: nothing is emitted *)
+Lemma port_gt65535_rejected n link : 65536 <= n -> encode_seg true (Port (inl n) link) = Err DataError.
 Proof.
   intros H. unfold encode_seg, encode_port, encode_port_with. cbn [bind].
   destruct (port_link_bytes link) as [lb|e]; [|reflexivity]. cbn [bind].
+  destruct (14 <? n) eqn:E; [|lia]. now rewrite UINT_big by lia.
+Qed.
+
+(* a negative port number is refused *)
+Lemma port_negative_rejected n link : n < 0 -> encode_seg true (Port (inl n) link) = Err DataError.
+Proof.
+  intros H. unfold encode_seg, encode_port, encode_port_with. cbn [bind].
+  destruct (port_link_bytes link) as [lb|e]; [|reflexivity]. cbn [bind].
+  destruct (14 <? n) eqn:E; [lia|]. cbn [bind].
   destruct (1 <? len lb).
   - destruct (USINT_encode (len lb)) as [l|e]; [|reflexivity]. cbn [bind].
-    change port_extended_link with 16. now rewrite USINT_big by (now apply lor16_ge256).
-  - cbn [bind]. now rewrite USINT_big by lia.
+    rewrite USINT_neg; [reflexivity|]. apply Z.lor_neg. now left.
+  - cbn [bind]. now rewrite USINT_neg.
 Qed.
 
-(* ---------------------------------------------------------------- finite sweeps *)
-Fixpoint zrange_from (a : Z) (n : nat) : list Z :=
-  match n with O => [] | S k => a :: zrange_from (a + 1) k end.
-
-Lemma zrange_from_in a n i : a <= i < a + Z.of_nat n -> In i (zrange_from a n).
+(* port 0 (reserved, not a port number) is written as it is; the strict parser refuses it *)
+Lemma port_zero_unreadable z : 0 <= z <= 255 ->
+  encode_seg true (Port (inl 0) (LinkInt z)) = Ok [0; z] /\ parse_padded_epath [0; z] = None.
 Proof.
-  revert a; induction n as [|n IH]; intros a H; [lia|]. cbn [zrange_from In].
-  destruct (Z.eq_dec a i); [now left|right]. apply IH. lia.
-Qed.
-
-Lemma forallb_range (P : Z -> bool) a n :
-  forallb P (zrange_from a n) = true -> forall i, a <= i < a + Z.of_nat n -> P i = true.
-Proof. intros H i Hi. rewrite forallb_forall in H. apply H. now apply zrange_from_in. Qed.
-
-(* a port number 15..255 with a slot link: the bytes are NOT read as that port (DESIGN F20) *)
-Definition port_misread (n z : Z) : bool :=
-  match parse_padded_epath [n; z] with
-  | Some [SPort p _] => negb (p =? n)
-  | _ => true
-  end.
-
-Lemma port_misread_sweep :
-  forallb (fun n => forallb (port_misread n) (zrange_from 0 256)) (zrange_from 15 241) = true.
-Proof. vm_compute. reflexivity. Qed.
-
-Lemma port_15_255_misread n z : 15 <= n <= 255 -> 0 <= z <= 255 ->
-  encode_seg true (Port (inl n) (LinkInt z)) = Ok [n; z] /\ parse_padded_epath [n; z] <> Some [SPort n [z]].
-Proof.
-  intros Hn Hz. split.
-  - apply (encode_port_plain (inl n) n (LinkInt z) z); [reflexivity|lia|].
+  intros Hz. split.
+  - apply (encode_port_plain (inl 0) 0 (LinkInt z) z); [reflexivity|lia|].
     cbn [port_link_bytes]. apply USINT_small. lia.
-  - pose proof (forallb_range _ 15 241 port_misread_sweep n ltac:(lia)) as H1. cbv beta in H1.
-    pose proof (forallb_range _ 0 256 H1 z ltac:(lia)) as H2. unfold port_misread in H2.
-    intros E. rewrite E in H2. rewrite Z.eqb_refl in H2. discriminate.
+  - unfold parse_padded_epath, parse_padded_epath_with. destruct (bytes_ok [0; z] && Nat.even (length [0; z])); reflexivity.
 Qed.
